@@ -4,6 +4,7 @@ CONSTANTS
   Nodes = {1, 2, 3}
   Counts = {0, 1, 2}
   Addrs = {"x", "y"}
+  MaxU64 = 4
   MaxDepth = 5
   EmitDepth = 5
 VIEW View
